@@ -3,8 +3,8 @@
    and each definition of the model is restated here with the regenerated function in the place of its input.  Kept apart
    from C06.v so that no other property's files depend on Gen/MacSites.v. *)
 From Coq Require Import List String NArith.
-From PV Require Import Bytes Result Oracle Ctr Paserk MacSiteRules.
-From PV.Gen Require Import MacSites.
+From PV Require Import Bytes Result Oracle Ctr Paserk MacSiteRules KdfSiteRules.
+From PV.Gen Require Import MacSites KdfSites.
 Import ListNotations.
 Local Open Scope string_scope.
 Local Open Scope list_scope.
@@ -79,6 +79,35 @@ Qed.
 Theorem C06_no_other_mac_site : map (fun r => (fst (fst (fst (fst r))), snd r)) gen_mac_sites = expected_mac_sites.
 Proof. exact mac_sites_complete. Qed.
 
+(* ---- the separator bytes of the PIE key derivation and of the PBKW sub-keys are the source's (Gen/KdfSites.v: the
+        second argument of every `kdf(...)` call), and they are 0x80 / 0x81 and 0xff / 0xfe ---- *)
+Theorem C06_pie_kdf_separators_are_the_sources : forall O : oracle, forall wk n,
+  (pieA_keys O wk n = pieA_with O "paseto-v1/src/core/pie_wrap.rs" wk n /\
+   pieA_keys O wk n = pieA_with O "paseto-v3/src/core/pie_wrap.rs" wk n /\
+   pieA_keys O wk n = pieA_with O "paseto-v3-aws-lc/src/core/pie_wrap.rs" wk n) /\
+  (pieB_keys O wk n = pieB_with O "paseto-v2/src/core/pie_wrap.rs" wk n /\
+   pieB_keys O wk n = pieB_with O "paseto-v4/src/core/pie_wrap.rs" wk n /\
+   pieB_keys O wk n = pieB_with O "paseto-v4-sodium/src/core/pie_wrap.rs" wk n).
+Proof. intros O wk n. exact (conj (pieA_keys_labels O wk n) (pieB_keys_labels O wk n)). Qed.
+Theorem C06_pbkw_subkey_separators_are_the_sources : forall O : oracle, forall k,
+  ((pw_ek (v1_pw O) k, pw_ak (v1_pw O) k) = pwA_subkeys_with O "paseto-v1/src/core/pw_wrap.rs" k /\
+   (pw_ek (v3_pw O) k, pw_ak (v3_pw O) k) = pwA_subkeys_with O "paseto-v3/src/core/pw_wrap.rs" k /\
+   (pw_ek (lc_pw O) k, pw_ak (lc_pw O) k) = pwA_subkeys_with O "paseto-v3-aws-lc/src/core/pw_wrap.rs" k) /\
+  ((pw_ek (v2_pw O) k, pw_ak (v2_pw O) k) = pwB_subkeys_with O "paseto-v2/src/core/pw_wrap.rs" k /\
+   (pw_ek (v4_pw O) k, pw_ak (v4_pw O) k) = pwB_subkeys_with O "paseto-v4/src/core/pw_wrap.rs" k /\
+   (pw_ek (na_pw O) k, pw_ak (na_pw O) k) = pwB_subkeys_with O "paseto-v4-sodium/src/core/pw_wrap.rs" k).
+Proof. intros O k. exact (conj (pwA_subkeys_labels O k) (pwB_subkeys_labels O k)). Qed.
+Theorem C06_separators_are_the_specs :
+  (forall f, In f ["paseto-v1/src/core/pie_wrap.rs"; "paseto-v2/src/core/pie_wrap.rs"; "paseto-v3/src/core/pie_wrap.rs";
+                   "paseto-v3-aws-lc/src/core/pie_wrap.rs"; "paseto-v4/src/core/pie_wrap.rs"; "paseto-v4-sodium/src/core/pie_wrap.rs"] ->
+     kdf_label f 0 = hex "80" /\ kdf_label f 1 = hex "81") /\
+  (forall f, In f ["paseto-v1/src/core/pw_wrap.rs"; "paseto-v2/src/core/pw_wrap.rs"; "paseto-v3/src/core/pw_wrap.rs";
+                   "paseto-v3-aws-lc/src/core/pw_wrap.rs"; "paseto-v4/src/core/pw_wrap.rs"; "paseto-v4-sodium/src/core/pw_wrap.rs"] ->
+     kdf_label f 0 = hex "ff" /\ kdf_label f 1 = hex "fe").
+Proof.
+  split; intros f [<-|[<-|[<-|[<-|[<-|[<-|[]]]]]]]; split; reflexivity.
+Qed.
+
 Print Assumptions C06_pie_auth_input_is_the_sources.
 Print Assumptions C06_pie_kdf_input_is_the_sources.
 Print Assumptions C06_pbkw_subkey_inputs_are_the_sources.
@@ -86,3 +115,6 @@ Print Assumptions C06_pbkw_auth_input_is_the_sources.
 Print Assumptions C06_pke_key_inputs_are_the_sources.
 Print Assumptions C06_pke_tag_input_is_the_sources.
 Print Assumptions C06_no_other_mac_site.
+Print Assumptions C06_pie_kdf_separators_are_the_sources.
+Print Assumptions C06_pbkw_subkey_separators_are_the_sources.
+Print Assumptions C06_separators_are_the_specs.
